@@ -319,6 +319,8 @@ MUTANTS = [
     m("C06-silent-auto-options-copied", "C06", "", INV, "            alg = CG(**alg.__dict__)", "            alg = CG(**dict(alg.__dict__))", silent=True),
     m("C18-declare-updates-shared-set", "C18", "declare-annotation@WrapMeta.__call__", ANN, "        new_obj.annotations = obj.annotations | {self}", "        new_obj.annotations.update({self})"),
     m("C18-silent-declare-copies-set", "C18", "", ANN, "        new_obj.annotations = obj.annotations | {self}", "        new_obj.annotations = set(obj.annotations) | {self}", silent=True),
+    m("C12-reciprocal-of-guard", "C12", "finite-reciprocal@do_safe_div", CG, "    output = num / denom\n    return output", "    output = num * (1.0 / denom)\n    return output"),
+    m("C12-silent-division-by-guard", "C12", "", CG, "    output = num / denom\n    return output", "    output = num / (1.0 * denom)\n    return output", silent=True),
     m("C19-sliced-densifies-parent", "C19", "matrix-free-product@Sliced.to_dense:parent", OPS, "    def __str__(self):\n        has_length = hasattr(self.slices[0], '__len__')", "    def to_dense(self):\n        return self.A.to_dense()[self.slices[0]][:, self.slices[1]]\n\n    def __str__(self):\n        has_length = hasattr(self.slices[0], '__len__')"),
 ]
 
